@@ -38,7 +38,7 @@ def build(case, pattern=None):
         graph.active_vertices_connected(s, a, **kw)
         flat = list(a)
         return s, (lambda p: [gcheck.fix(v, b) for v, b in zip(flat, p)])
-    g = gcheck.make_graph(n, case["edges"])
+    g = gcheck.make_graph(n, case["edges"], case.get("grown"))
     if form in ("vars", "array1d"):
         x = s.bool_array(n)
         graph.active_vertices_connected(s, x if form == "array1d" else list(x), g, **kw)
@@ -180,6 +180,14 @@ def cases_for(tier):
                 for acyclic in (False, True):
                     for ugp in (False, True):
                         out.append({"form": "vars", "n": n, "edges": es, "acyclic": acyclic, "ugp": ugp, "cfg": False})
+    # Graph objects with a history: some edges added only after the object has been used by other constraints
+    for n in (3, 4):
+        for edges in graphref.simple_graphs(n):
+            if 2 <= len(edges) <= 5:
+                for grown in (1, len(edges) - 1):
+                    for acyclic in (False, True):
+                        for ugp in (False, True):
+                            out.append({"form": "vars", "n": n, "edges": list(edges), "acyclic": acyclic, "ugp": ugp, "cfg": False, "grown": grown})
     # selected 6-vertex graphs
     six = {
         "path6": [(i, i + 1) for i in range(5)],
@@ -207,6 +215,20 @@ def cases_for(tier):
                 out.append({"form": "grid", "n": h * w, "shape": [h, w], "acyclic": acyclic, "ugp": ugp, "cfg": False, "patterns": scale_patterns(h, w)})
             out.append({"form": "vars", "n": h * w, "edges": graphref.orient(graphref.grid_edges(h, w), 3), "acyclic": acyclic, "ugp": False, "cfg": False,
                         "shape": [h, w], "patterns": scale_patterns(h, w)})
+    # large family (a few hand-picked patterns far beyond the exhaustive bound: thresholds such as 256 vertices)
+    for n in ((300,) if tier == "quick" else (130, 257, 300, 600)):
+        path = [(i, i + 1) for i in range(n - 1)]
+        pats = [[True] * n, [i < 100 or i >= n - 100 for i in range(n)] if n > 250 else [i != n // 2 for i in range(n)], [False] * n, [i == 0 or i == n - 1 for i in range(n)], [i >= 2 for i in range(n)]]
+        cyc = path + [(n - 1, 0)]
+        for acyclic in (False, True):
+            out.append({"form": "vars", "n": n, "edges": path, "acyclic": acyclic, "ugp": False, "cfg": False, "patterns": pats, "shape": [1, n]})
+            out.append({"form": "vars", "n": n, "edges": graphref.orient(cyc, 3), "acyclic": acyclic, "ugp": False, "cfg": False, "patterns": pats[:2] + [[i != 7 for i in range(n)]], "shape": [1, n]})
+        out.append({"form": "vars", "n": n, "edges": path, "acyclic": False, "ugp": True, "cfg": False, "patterns": pats, "shape": [1, n]})
+    for k in ((17,) if tier == "quick" else (17, 20)):
+        full = [True] * (k * k)
+        two = [(y < 2 and x < 2) or (y >= k - 2 and x >= k - 2) for y in range(k) for x in range(k)]
+        for acyclic in (False, True):
+            out.append({"form": "grid", "n": k * k, "shape": [k, k], "acyclic": acyclic, "ugp": False, "cfg": False, "patterns": [full, two, scale_patterns(k, k)[0]]})
     return out
 
 
@@ -267,7 +289,7 @@ def main(tier, seed, only=None):
         "multigraphs on 2-3 vertices with parallel edges in both orientations, 5 selected 6-vertex graphs, all grid shapes with <= %d cells (BoolArray2D form); all 2^n activity patterns; is_active as "
         "variables / BoolArray1D / negated variables / a Solver that already holds other variables, constraints and a second connectivity constraint / Python constants / mixed variable-constant lists / x==y over two vectors "
         "(all 4^n underlying assignments, n<=3); acyclic off/on; use_graph_primitive False / True / None with the config flag off/on. "
-        "Scale family (not exhaustive): on boards up to %s the serpentine corridor, its one-cell perturbations, the full board, a closed cycle, "
+        "Scale family (not exhaustive): paths and cycles on 300 (thorough 600) vertices, the 17x17 grid, and on boards up to %s the serpentine corridor, its one-cell perturbations, the full board, a closed cycle, "
         "boustrophedon prefixes and sparse sets.  Each (case, pattern) is one find_answer through cspuz's z3 backend (native-aware harness backend when the program "
         "contains the native operator).  Oracle: induced subgraph connected (tree when acyclic), empty set admitted.  "
         "Non-trivial = distinct (graph, pattern) pairs; both admitted and rejected patterns are counted in outcomes."
